@@ -554,7 +554,7 @@ func (w *world) checkPlacement(res *result, j job, all int, origFiles map[string
 func master(cfg *harness.Config, rep *harness.Report) {
 	rep.Rule = "worlds = all ordered pairs of different non-empty server sets over {A,B,C} (grow, shrink, replace, disjoint) x placement seeds x Sync order (every node of old ∪ new runs its start-up Sync: all permutations, and all concurrently); data = 4 users with one collection of 2..5 points at 2 points per shard (1-3 shards each), created through the old cluster. Faults: for every world with transfers, the receive handler fails at chunk k in {0, 1 (= the end marker for single-chunk files), ...} of the t-th transfer, or a data chunk arrives with its last byte flipped (so only the checksum can tell); afterwards the partial destination file is left as is or truncated to 0 / 1 / size-1 bytes, all nodes restart and synchronise twice - with the same new server list, or with a server list that has changed once more (quick: back to the old list; thorough: every other list), so that the second move starts from what the interrupted one left. Oracle: after an interrupted run every record and an intact copy of every shard file still exists somewhere; after the (recovery) synchronisation every record and shard file is on exactly its RendezvousHash owner, byte-identical, and every point is readable through every new node. distinct_nontrivial = worlds in which at least one shard had to move"
 	rep.Assumptions = []string{"a sender killed mid-run is modelled by its Sync returning an error (main.go exits); a receiver killed after writing chunk k leaves the same files as a failure before chunk k+1", "RpcRetries 1 (more retries sleep 2^i s)", "real kill -9 during write(2) is replaced by the enumeration of torn destination files"}
-	p := pool.New(pool.Options{CPUsPerWorker: 2, JobTimeout: 300 * time.Second})
+	p := pool.New(pool.Options{CPUsPerWorker: 2, JobTimeout: 300 * time.Second, NetNS: true})
 	var jobs []job
 	if cfg.Replay != "" {
 		var j job
@@ -691,6 +691,7 @@ func master(cfg *harness.Config, rep *harness.Report) {
 	}
 	rep.DistinctNontrivial = int64(moved)
 	rep.Set("worlds_and_fault_runs", len(jobs))
+	rep.Set("server_names_fixed_by_network_namespace", p.NetNS())
 	rep.Set("fault_runs_in_which_the_fault_fired", fired)
 	rep.Set("big_file_transfers_interrupted", firedBig)
 	if cfg.Replay == "" && firedBig == 0 {
